@@ -16,6 +16,7 @@ package collectionutils
 //@   ensures old(n.list.firstNode) != n ==> n.list.firstNode == old(n.list.firstNode)
 //@   ensures old(n.previousNode) != nil ==> old(n.previousNode).nextNode == old(n.nextNode)
 //@   ensures old(n.nextNode) != nil ==> old(n.nextNode).previousNode == old(n.previousNode)
-//@   ensures n.nextNode == old(n.nextNode) && n.list == old(n.list)
+//@   ensures n.nextNode == old(n.nextNode) && n.list == old(n.list) && n.object == old(n.object)
+//@   modifies pkg:collectionutils
 //@   nopanic
 //@   property C15
